@@ -1736,3 +1736,63 @@ func ruleReadOnlyOnlyRaised(c *Ctx, r *Reporter) {
 		r.Undecided("replication.Manager.setEngineReadOnly:callers", c.FnPos(set), "no caller found")
 	}
 }
+
+// rulePoolWritesUnderPoolLock: MemTablePool.Put/Delete call the active table's Put/Delete while holding the pool lock. The
+// switch to a new table takes the pool lock exclusively, and SetImmutable is a bare atomic store: the pool lock is the only
+// thing that keeps a write that has passed the immutability test from finishing after the table was handed off as immutable.
+func rulePoolWritesUnderPoolLock(c *Ctx, r *Reporter) {
+	r.Rule("pool-writes-hold-the-pool-lock", 2)
+	li := c.Locks()
+	for _, mn := range []string{"Put", "Delete"} {
+		fn := c.Func("pkg/memtable", "MemTablePool", mn)
+		mt := c.Func("pkg/memtable", "MemTable", mn)
+		if fn == nil || mt == nil {
+			r.Unresolved("memtable.MemTablePool."+mn+" / MemTable."+mn, "not found")
+			continue
+		}
+		n, bad := 0, 0
+		var pos ssa.Instruction
+		AllInstrs(fn, false, func(_ *ssa.Function, ins ssa.Instruction) {
+			call, ok := ins.(*ssa.Call)
+			if !ok || call.Call.StaticCallee() != mt {
+				return
+			}
+			n++
+			h := li.HeldAt(ins)
+			if !h.Holds("memtable.MemTablePool.mu", "R") && !h.Holds("memtable.MemTablePool.mu", "W") {
+				bad++
+				pos = ins
+			}
+		})
+		p := c.FnPos(fn)
+		if pos != nil {
+			p = c.InsPos(pos)
+		}
+		r.Check(n > 0 && bad == 0, "memtable.MemTablePool."+mn+":insert-under-pool-lock", p, "the active table is written with MemTablePool.mu held",
+			"the active table's "+mn+" runs without MemTablePool.mu: a write that passed the immutability test can finish after SwitchToNewMemTable handed the table off — an 'immutable' table changes under its flush, and writers arriving after the switch return silently although their write is in no table")
+	}
+}
+
+// ruleComparatorNoSubtraction: a three-way comparison of sequence numbers is not computed by subtracting them: the uint64
+// difference changes sign for numbers 2^63 or more apart, and the order is no longer transitive (the decision tables of the
+// comparator use small ranks and cannot see this).
+func ruleComparatorNoSubtraction(c *Ctx, r *Reporter) {
+	r.Rule("comparator-without-subtraction", 1)
+	fn := c.Func("pkg/memtable", "entry", "compareWithEntry")
+	if fn == nil {
+		r.Unresolved("memtable.entry.compareWithEntry", "not found")
+		return
+	}
+	var bad []string
+	AllInstrs(fn, false, func(_ *ssa.Function, ins ssa.Instruction) {
+		bo, ok := ins.(*ssa.BinOp)
+		if !ok || bo.Op != token.SUB {
+			return
+		}
+		if b, ok := bo.X.Type().Underlying().(*types.Basic); ok && b.Info()&types.IsUnsigned != 0 {
+			bad = append(bad, Path(bo.X)+" - "+Path(bo.Y)+" at "+c.InsPos(ins))
+		}
+	})
+	r.Check(len(bad) == 0, "memtable.entry.compareWithEntry:arithmetic", c.FnPos(fn), "sequence numbers are compared, not subtracted",
+		"the comparator subtracts unsigned sequence numbers ("+strings.Join(bad, "; ")+"): for numbers 2^63 or more apart the sign of the difference flips, a newer version is linked behind an older one and iteration yields the stale version first")
+}
